@@ -16,13 +16,19 @@ def tasks(tier, seed):
         func("bt.core.SecurityBase.outlay"),
         func("bt.core.SecurityBase.transact"),
         func("bt.core.StrategyBase.adjust"),
+        dict(kind="custom", module="props.bounded", fn="run_script", script="c05_sizing", seed=seed, n=1500 if tier == "quick" else 40000, props=["C05"]),
     ]
+
+
+def post(results, tier, seed):
+    b = [r["bounded"] for r in results if r.get("bounded")]
+    return None, dict(bounded_stand_ins=b, bounded_note="real allocations on the interpreted scratch copy; never counted in obligations/discharged")
 
 MANIFEST_ENTRY = {
     "level_text": "Deductive proof, for all real-valued prices/positions/amounts/spreads, any commission function and both position modes, that every exit of the real "
     "SecurityBase.allocate body satisfies the C05 clauses (budget within the code's own isclose tolerance or largest whole unit, close-out, zero amount, refusal on bad price) "
     "and books exactly one transact(q) and nothing else; the sizing search is cut at an inductive invariant, so the proof is unbounded in the number of iterations.",
-    "level_note": "Reals instead of floats (A-REAL); commission uninterpreted; termination of the search and absence of its three guard exceptions are not proved here; "
+    "level_note": "Reals instead of floats (A-REAL); commission uninterpreted; termination of the search and absence of its three guard exceptions are not proved (bounded stand-in c05_sizing on the real code only); "
     "rounding that lands exactly on minus the position (close-out coincidence) is excluded from the budget clause and tracked as a known finding.",
     "technique": "contract-based deductive verification: VCs from the real AST (pyvc) + z3/cvc5; loop invariant on the sizing search",
 }
